@@ -20,7 +20,7 @@ from .c12 import _conflicts, resolve_arg, resolve_bin_val, strategy as c12_histo
 
 ID = "C13"
 LEVEL = "exploration"
-BUDGET = {"quick": 8000, "thorough": 600000}
+BUDGET = {"quick": 8000, "thorough": 300000}
 RULE = (
     "case = (C12-style history building a non-empty BinaryTrie, so the db also holds "
     "stale nodes; a second history for a sibling trie; keys/prefixes: stored, absent "
@@ -151,6 +151,7 @@ def run_case(case):
 
     # ---- get_trie_nodes: exactly the reachable nodes ---------------------------------
     nodes = impl("get_trie_nodes", get_trie_nodes, db, root)
+    expect("trie-nodes-exact", isinstance(nodes, tuple), lambda: f"get_trie_nodes returned {nodes!r}")
     expect_eq("trie-nodes-exact", Counter(nodes), Counter(ref.order), "get_trie_nodes(root) as a multiset")
 
     parsable_corruption = False
@@ -172,6 +173,8 @@ def run_case(case):
             info.label("branch-refused")
         else:
             truth = model.get(k)
+            expect("branch-nonempty", isinstance(br, tuple) and len(br) >= 1,
+                   lambda: f"get_branch({k!r}) of a non-empty trie returned {br!r}")
             expect("branch-nodes-belong-to-trie", all(n in reach for n in br),
                    lambda: f"get_branch({k!r}) contains a node that is not in the trie")
             if br:
@@ -270,6 +273,7 @@ def run_case(case):
                    lambda: f"get_witness_for_key_prefix({k!r}) refused although it does not run past a leaf")
             info.label("witness-refused")
         else:
+            expect("witness-only-trie-nodes", isinstance(w, tuple), lambda: f"get_witness_for_key_prefix({k!r}) returned {w!r}")
             expect("witness-only-trie-nodes", all(n in reach for n in w),
                    lambda: f"witness for {k!r} contains a node that is not in the trie")
             wdb = {keccak(n): n for n in w}
